@@ -59,6 +59,30 @@ theorem matchMap_perm (re : Bytes → Bool) (sh : GoVal → Bytes) {m₁ m₂ : 
   rw [matchMap_eq, matchMap_eq, kvMatches_any, kvMatches_any]
   exact any_perm _ h
 
+/-! ### a value matches iff one of its texts does -/
+
+mutual
+theorem cellMatches_texts (re : Bytes → Bool) (sh : GoVal → Bytes) : ∀ v, cellMatches re sh v = (searchTexts sh v).any re
+  | .nil => by simp [cellMatches, searchTexts]
+  | .str s => by simp [cellMatches, searchTexts]
+  | .bool b => by simp [cellMatches, searchTexts]
+  | .int i => by simp [cellMatches, searchTexts]
+  | .f64 b => by simp [cellMatches, searchTexts]
+  | .f32 b => by simp [cellMatches, searchTexts]
+  | .arr xs => by simp only [cellMatches, searchTexts]; exact anyMatches_texts re sh xs
+  | .obj kvs => by simp only [cellMatches, searchTexts]; exact kvMatches_texts re sh kvs
+theorem anyMatches_texts (re : Bytes → Bool) (sh : GoVal → Bytes) : ∀ xs, anyMatches re sh xs = (searchTextsList sh xs).any re
+  | [] => by simp [anyMatches, searchTextsList]
+  | x :: xs => by
+    simp only [anyMatches, searchTextsList, List.any_append]
+    rw [cellMatches_texts re sh x, anyMatches_texts re sh xs]
+theorem kvMatches_texts (re : Bytes → Bool) (sh : GoVal → Bytes) : ∀ kvs, kvMatches re sh kvs = (searchTextsKvs sh kvs).any re
+  | [] => by simp [kvMatches, searchTextsKvs]
+  | (k, v) :: rest => by
+    simp only [kvMatches, searchTextsKvs, List.any_cons, List.any_append]
+    rw [cellMatches_texts re sh v, kvMatches_texts re sh rest, Bool.or_assoc]
+end
+
 /-! ### the loop with early return -/
 
 /-- keep at most `lim` results; the flag says that the limit was reached -/
